@@ -728,6 +728,108 @@ def r48(ctx, res):
     ctx.require(res, "R4.8", n, 40, "membership tests in the intersection code")
 
 
+# ---------------------------------------------------------------- R4.9
+def r49_same_type_swap_closure(ctx, res):
+    """For the same-type pairs intersection(a, b) and intersection(b, a) run ONE handler with the operands
+    exchanged.  A structural necessary condition for the two runs to denote the same set: at every result
+    return, the set of candidate families that have certainly been consulted is closed under exchanging the
+    two operands (what was collected from a against b must also have been collected from b against a)."""
+    import copy as _copy
+
+    from ..confinement import family_bypass
+    from .c01 import collinear_branch
+
+    repo = ctx.repo
+
+    def swap_txt(node, a, b):
+        class R(ast.NodeTransformer):
+            def visit_Name(self, n):
+                if n.id == a:
+                    return ast.copy_location(ast.Name(id=b, ctx=n.ctx), n)
+                if n.id == b:
+                    return ast.copy_location(ast.Name(id=a, ctx=n.ctx), n)
+                return n
+        return txt(R().visit(_copy.deepcopy(node)))
+
+    def fam_key(F):
+        """canonical description of a family, loop variables and locals normalised away"""
+        if isinstance(F, ast.If):
+            return "if " + txt(F.test)
+        if isinstance(F, ast.For):
+            calls = sorted(txt(c)[:80] for c in ast.walk(F) if isinstance(c, ast.Call) and isinstance(c.func, ast.Name)
+                           and (c.func.id.startswith("inter") or c.func.id.endswith("_point_set")))
+            tests = sorted(txt(c) for st in F.body if isinstance(st, ast.If) for c in [st.test])
+            v = F.target.id if isinstance(F.target, ast.Name) else "_"
+            return ("for _ in %s: %s %s" % (txt(F.iter), calls, tests)).replace(v, "_v")
+        return txt(F)
+
+    def fam_mirror(F, a, b):
+        class R(ast.NodeTransformer):
+            def visit_Name(self, n):
+                if n.id == a:
+                    return ast.copy_location(ast.Name(id=b, ctx=n.ctx), n)
+                if n.id == b:
+                    return ast.copy_location(ast.Name(id=a, ctx=n.ctx), n)
+                return n
+        return fam_key(R().visit(_copy.deepcopy(F)))
+
+    n = 0
+    for name in ("inter_segment_segment", "inter_halfline_halfline", "inter_convexpolygon_convexpolygon",
+                 "inter_convexpolyhedron_convexpolyhedron"):
+        fi = repo.fn(name, "calc.intersection")
+        a, b = fi.params[:2]
+        fams: List[ast.stmt] = []
+        scope: List[ast.stmt] = list(fi.node.body)
+        br = collinear_branch(fi)
+        if br is not None:
+            scope = br.body
+            fams = [st for st in br.body if isinstance(st, ast.If) and isinstance(st.test, ast.Compare)
+                    and isinstance(st.test.ops[0], ast.In)]
+        else:
+            for st in walk_local(fi.node):
+                if isinstance(st, ast.For) and any(x in txt(st.iter) for x in (a + ".", b + ".")):
+                    fams.append(st)
+            if fams:
+                for st in walk_local(fi.node):
+                    if isinstance(st, ast.If):
+                        for body in (st.body, st.orelse):
+                            if all(any(f_ is x for x in body) for f_ in fams):
+                                scope = body
+        if not fams:
+            raise AnalysisError("%s: no candidate families found" % fi.where())
+        keys = {id(F): fam_key(F) for F in fams}
+        mirrors = {id(F): fam_mirror(F, a, b) for F in fams}
+        allkeys = set(keys.values())
+        # self-mirrored families (symmetric through a helper that iterates the other operand's edges)
+        g = ctx.cfg(fi)
+        bypassed = family_bypass(ctx, fi, fams, scope)
+        by_ret: Dict[int, Set[int]] = {}
+        rets = {}
+        for r, F in bypassed:
+            by_ret.setdefault(id(r), set()).add(id(F))
+            rets[id(r)] = r
+        n += 1
+        bad = []
+        for rid, skipped in by_ret.items():
+            consulted = [F for F in fams if id(F) not in skipped]
+            ck = {keys[id(F)] for F in consulted}
+            for F in consulted:
+                mk = mirrors[id(F)]
+                if mk in allkeys and mk not in ck:
+                    bad.append((rets[rid], F, mk))
+        ok = not bad
+        res.ob("R4.9", fi.where(), "%s: consulted candidate families are closed under exchanging the operands at every result return" % fi.short,
+               ok, "%d families, %d result returns behind all of them" % (len(fams), len(by_ret)) if ok else
+               "`%s` is reached after `%s` but possibly before its mirror image" % (txt(bad[0][0])[:40], keys[id(bad[0][1])][:60]))
+        for r, F, mk in bad[:2]:
+            res.violation("R4.9", fi, r,
+                          "%s can `%s` after consulting `%s` but without its mirror image `%s`: intersection(a, b) and intersection(b, a) "
+                          "run this handler with the operands exchanged and would then disagree" % (
+                              fi.short, txt(r)[:40], keys[id(F)][:70], mk[:70]),
+                          construct="%s: `%s` after %s without its mirror" % (fi.short, txt(r)[:40], keys[id(F)][:50]))
+    ctx.require(res, "R4.9", n, 4, "same-type handlers with candidate families")
+
+
 def run(ctx, res):
     res.explanation = (
         "Static decision of the dispatch structure of intersection(): totality over the 49 ordered operand-type "
@@ -744,7 +846,9 @@ def run(ctx, res):
     r46(ctx, res)
     r47(ctx, res)
     r48(ctx, res)
-    res.undecided_ob("for the 7 same-type pairs, that handler(a, b) and handler(b, a) denote the same set (numeric)")
+    r49_same_type_swap_closure(ctx, res)
+    res.undecided_ob("for the 7 same-type pairs, that handler(a, b) and handler(b, a) denote the same set beyond the swap closure "
+                     "of the consulted candidate families (numeric)")
     res.extra["functions_analysed"] = len(scope_functions(ctx))
     res.extra["type_inference"] = {"contexts": len(ctx.types.memo), "iterations": ctx.types.iterations,
                                    "call_sites_resolved": sum(1 for v in ctx.types.call_targets.values() if v)}
